@@ -37,8 +37,10 @@ def main():
     from vf.drive import session
     out = None
     summaries = []
+    held = []
     for i, spec in enumerate(calls):
         r = session.run(spec, obs='off', clean_globals=False, check_args=True)
+        held.append(r.pop('_live_args'))
         fin = r['final'] or {}
         summ = dict(error=r['error'] and r['error']['type'], n_orders=len(r['orders']), n_trades=len(fin.get('trades', [])))
         summaries.append(summ)
@@ -47,7 +49,14 @@ def main():
                        orders=[{k: v for k, v in o.items()} for o in r['orders']],
                        trades=[{k: v for k, v in t.items()} for t in fin.get('trades', [])],
                        accounts=fin.get('accounts'), daily_balance=fin.get('daily_balance'), args_modified=r.get('args_modified'))
-    real_stdout.write(json.dumps(clean(dict(probe=out, summaries=summaries))))
+    # arguments of EARLIER calls must still be what the caller passed after all later calls have run
+    late = []
+    for i, (live, frozen) in enumerate(held):
+        now = session._freeze(live)
+        bad = [k for k in now if now[k] != frozen[k]]
+        if bad:
+            late.append(dict(call=i, of=len(held), modified=bad))
+    real_stdout.write(json.dumps(clean(dict(probe=out, summaries=summaries, late_arg_mutations=late))))
     real_stdout.flush()
 
 
